@@ -1010,44 +1010,86 @@ def gen_table(which, fname):
 # ------------------------------------------------------------------ C13
 
 def explore_c13(ctx, res, replay_ops=None):
-    r = ctx.stream("auth", 0, ops=replay_ops, with_model=False)
+    r = ctx.stream("auth", 0, ops=replay_ops)
     lists = set()
-    for i, (op, im) in enumerate(zip(r.ops, r.impl)):
+    valid_seen = {}      # service list -> the valid-token probes so far (the history a near miss is judged after)
+    accepted_valid = 0
+    for i, (op, im, mo) in enumerate(zip(r.ops, r.impl, r.model)):
         t = op.split()
+        if t[1] != "probe":
+            continue
+        if im == "n/a":
+            res.outside_domain["near-miss-does-not-exist"] += 1
+            continue
         res.evaluations += 1
         lists.add(t[2])
-        res.dist["token:" + t[5]] += 1
+        kind = t[5]
+        rctx = t[6] if len(t) > 6 else "live"
+        res.dist["token:" + kind] += 1
+        res.dist["context:" + rctx] += 1
         res.nontrivial.add(" ".join(t[2:5]))
         m = re.match(r"status=(\d+) pool=(\d+)>(\d+)", im)
         res.traces_validated += 1
+        # the replay of a probe is the probe after the valid tokens its service list has seen (order matters)
+        hist = valid_seen.setdefault(t[2], [])
+        rep = hist[-40:] + [op]
         if not m:
-            res.violation("oracle", "C13: probe crashed: " + im, [op])
+            res.violation("oracle", "C13: probe crashed: " + im, rep)
             continue
         st, b, a = int(m.group(1)), int(m.group(2)), int(m.group(3))
         path = bytes.fromhex(t[4]).decode()
         registered = not (path in ("/", "/chargingdata"))
+        mm = re.match(r"status=(\d+) handler=([01])$", mo)
+        if kind == "valid":
+            # a token signed by the NRF key: nothing is required of the answer; it is the history of what follows
+            hist.append(op)
+            res.dist["valid-token:status=%d" % st] += 1
+            if st != 401:
+                accepted_valid += 1
+            if mm and mm.group(2) == "1" and st == 401:
+                res.disagreements += 1
+                res.violation("correspondence", "auth: the router model lets a request with a token signed by the NRF key through, "
+                              "the implementation answered 401", rep + ["# impl: " + im, "# model: " + mo], found_input=False)
+            continue
+        after = "" if not hist else " after %d requests with a valid token had been served" % len(hist)
+        what = "token kind '%s'%s%s" % (kind, "" if rctx == "live" else ", request context " + rctx, after)
+        if not mm or (registered and (mm.group(1), mm.group(2)) != ("401", "0")) or (not registered and mm.group(2) != "0"):
+            res.disagreements += 1
+            res.violation("correspondence", "auth: the router model (regenerated paths of Check / AuthorizationCheck) does not reject "
+                          "a request with %s: %s" % (what, mo), rep + ["# impl: " + im, "# model: " + mo], found_input=False)
         if registered and st != 401:
-            res.violation("oracle", "C13: %s %s answered %d to a request with token kind '%s' (services %s)" % (
-                t[3], path, st, t[5], t[2]), [op, "# impl: " + im])
+            res.violation("oracle", "C13: %s %s answered %d to a request with %s (services %s)" % (
+                t[3], path, st, what, t[2]), rep + ["# impl: " + im])
         if not registered and st // 100 == 2:
-            res.violation("oracle", "C13: unregistered path %s answered %d" % (path, st), [op, "# impl: " + im])
+            res.violation("oracle", "C13: unregistered path %s answered %d" % (path, st), rep + ["# impl: " + im])
         if a != b:
-            res.violation("oracle", "C13: an unauthenticated request changed the subscriber pool", [op, "# impl: " + im])
+            res.violation("oracle", "C13: an unauthenticated request changed the subscriber pool", rep + ["# impl: " + im])
+        if " state-same=0" in im:
+            res.violation("oracle", "C13: a request with %s was processed: the charging state (subscribers, sessions, records, accounts, "
+                          "notifications) differs after it" % what, rep + ["# impl: " + im])
         if registered and st == 401 and " one=0" in im:
             res.violation("oracle", "C13: the 401 answer is not a single problem document: something ran after the rejection and wrote to the response",
-                          [op, "# impl: " + im])
-        res.sample({"op": op, "impl": im})
+                          rep + ["# impl: " + im])
+        res.sample({"op": op, "impl": im, "model": mo})
     res.exhaustive = True
     res.extra["service_lists"] = len(lists)
+    res.extra["valid_tokens_accepted"] = accepted_valid
     res.rule = ("exhaustive: every route gin registered for each of the 16 ordered lists of distinct service names x 13 token kinds "
                 "(absent, garbage, 'Bearer' garbage, alg=none JWT, HS256 JWT, RS512 JWT signed by another key, Basic, another scheme, lower-case bearer, three words; three of them also with no NRF certificate configured), OAuth2Required=true, "
-                "NRF certificate generated at run time; expects 401 and an unchanged subscriber pool; distinct = (services, method, path)")
+                "NRF certificate generated at run time; request contexts live / cancelled / past their deadline before the router sees the request; "
+                "histories: on every route a token signed by the NRF key first, then its 10 near misses (letter case of one letter of the signature, "
+                "claims or JOSE header changed, whole header lower-/upper-cased, signature truncated / one character replaced / dropped, lower-case scheme), "
+                "then all near misses on all routes again; expects 401, an unchanged subscriber pool and an unchanged digest of the whole charging state "
+                "from every request whose token is not signed by the NRF key, whatever was accepted before; the Lean router model "
+                "(regenerated control-flow paths of Check and AuthorizationCheck, every adversary, every feasible path) must predict the same; "
+                "distinct = (services, method, path)")
 
 
 PROPS["C13"] = dict(lean=["ChfVerif.Props.C13"], explore=explore_c13, gen=[gen_table("routes", "Routes.lean")],
                     trusted=["gin group/middleware/Abort semantics are modelled (Model/Router.lean)",
-                             "free5gc/openapi oauth.VerifyOAuth is abstracted as a predicate on tokens (probed with 6 kinds of bad token)",
-                             "the go/ast extractor in harness/cmd/routes.go (syntactic facts of newRouter) and gin's reported chain lengths"])
+                             "free5gc/openapi oauth.VerifyOAuth is abstracted as a predicate on tokens (probed with 13 kinds of bad token and 10 near misses of a valid one)",
+                             "the go/ast extractors in harness/cmd/routes.go (syntactic facts of newRouter) and harness/cmd/authast.go "
+                             "(control-flow paths of RouterAuthorizationCheck.Check and CHFContext.AuthorizationCheck), gin's reported chain lengths"])
 
 
 # ------------------------------------------------------------------ C17
